@@ -23,12 +23,15 @@
 (*                                                                         *)
 (* Layer = "A": every site's contribution is a function of its key set     *)
 (*              (what the property demands); TLC shows Deterministic.      *)
-(* Layer = "B": sites behave as transcribed from thriftgo (DetSites!       *)
-(*              ImplKind); TLC shows that executions can only diverge at   *)
-(*              (program, configuration) pairs with Leaky # {} and prints  *)
-(*              every pair for which two diverging executions exist.       *)
-(* Layer B is a prediction, never a verdict: verdicts come from hashing    *)
-(* the real outputs of repeated executions (checks/c07.py).                *)
+(* Layer = "B": sites behave as transcribed from thriftgo as it is now     *)
+(*              (DetSites!ImplKind); TLC shows that executions can only    *)
+(*              diverge at (program, configuration) pairs with Leaky # {}  *)
+(*              and prints every pair for which two diverging executions   *)
+(*              exist (none, since the three leaks were repaired).         *)
+(* Layer = "P": the same with the transcription of the pinned commit       *)
+(*              (DetSites!PinnedKind): diverges exactly at LeakyPinned.    *)
+(* Layers B and P are predictions, never verdicts: verdicts come from      *)
+(* hashing the real outputs of repeated executions (checks/c07.py).        *)
 (***************************************************************************)
 EXTENDS DetSites, Json
 
@@ -63,7 +66,10 @@ Ident(k) == [i \in 1..k |-> i]
 Folded(s) == LET k == KeyCount(s, p, c) IN IF k > MaxPerm THEN MaxPerm ELSE k
 
 \* what site s contributes to its object, given the order it was walked in
-Kind(s) == IF Layer = "A" /\ ImplKind(s, c) = "map" THEN "sorted" ELSE ImplKind(s, c)
+Kind(s) == CASE Layer = "A" -> IF ImplKind(s, c) = "map" THEN "sorted" ELSE ImplKind(s, c)
+             [] Layer = "B" -> ImplKind(s, c)
+             [] Layer = "P" -> PinnedKind(s, c)
+LayerLeaky == IF Layer = "P" THEN LeakyPinned(p, c) ELSE IF Layer = "B" THEN Leaky(p, c) ELSE {}
 Render(s, w) == IF w = Ident(Len(w)) THEN w                 \* (the canonical walk renders to itself under every kind)
                 ELSE IF Kind(s) = "map" THEN w ELSE Ident(Len(w))
 
@@ -159,7 +165,7 @@ TypeOK == /\ pc \in {"root", "env", "emit", "persist", "done"}
 Deterministic == pc = "done" => Result(dir) = first
 
 \* layer B: executions diverge only where the transcription says a site leaks its walk order ...
-DivergesOnlyWhereLeaky == (pc = "done" /\ Result(dir) # first) => Leaky(p, c) # {}
+DivergesOnlyWhereLeaky == (pc = "done" /\ Result(dir) # first) => LayerLeaky # {}
 \* ... and TLC reports every (program, configuration) for which it found two diverging executions
 ReportDivergence ==
   (pc = "done" /\ Result(dir) # first) =>
